@@ -3,17 +3,15 @@
  * Property text: "returns 0 if and only if all len bytes of the region are zero ... bytes just outside
  * the region never influence the answer, len = 0 reports all-zero ... reading nothing outside".
  *
- * Three contract variants (selected by -D in the registry entry):
+ * Contract variants (selected by -D in the registry entry):
  *   default            soundness for an arbitrary buffer of exactly n bytes (is_fresh(buf,n)):
  *                        ret in {0,-1};  ret==0 ==> buf[g_p]==0 for the ghost position g_p<n (any position);
  *                        equivalently buf[g_p]!=0 ==> ret==-1;  n==0 ==> ret==0;  assigns nothing.
- *   MZD_COMPLETE       completeness for an arbitrary buffer of exactly n bytes, by witness:
- *                        ret!=0 ==> there is a k<n with buf[k]!=0.  The witness is either w_k (set by the
- *                        ghost hook from the eight bytes the loop iteration is about to inspect) or one of
- *                        the last min(7,n) bytes (seven-way disjunction, loop-free).  Contrapositive:
- *                        all bytes zero ==> ret==0.
- *   MZD_CALLOC         completeness stated directly: the harness calloc()s n bytes (all zero), the contract
+ *   MZD_CALLOC         completeness: the harness calloc()s n bytes (all zero, n symbolic), the contract
  *                        has no is_fresh (the object is the harness's) and ensures ret==0.
+ *   MZD_LEN0           default contract without the loop-hook canary (the n==0 harness never enters the loop).
+ * A witness formulation of completeness on arbitrary buffers (ret!=0 ==> some byte is non-zero, witness
+ * recorded by a ghost hook) was tried and did not finish (time-out / memory cap); it is not registered.
  * g_n0 is the ghost copy of n (n is decremented by the code). */
 #ifndef MEM_CONTRACTS_H
 #define MEM_CONTRACTS_H
@@ -21,18 +19,9 @@
 
 extern size_t g_p;  /* ghost byte position */
 extern size_t g_n0; /* ghost copy of n */
-extern size_t w_k;  /* witness: position of a non-zero byte seen by the word loop */
-extern int w_found;
 
 #define MZD_NMAX 0x7fffffffffffULL
 #define MZD_B(k) (((const uint8_t *) buf)[k])
-
-/* "one of the last min(7,n) bytes is non-zero" */
-#define MZD_TAIL_NZ(n0)                                                                            \
-        (((n0) >= 1 && MZD_B((n0) - 1) != 0) || ((n0) >= 2 && MZD_B((n0) - 2) != 0) ||             \
-         ((n0) >= 3 && MZD_B((n0) - 3) != 0) || ((n0) >= 4 && MZD_B((n0) - 4) != 0) ||             \
-         ((n0) >= 5 && MZD_B((n0) - 5) != 0) || ((n0) >= 6 && MZD_B((n0) - 6) != 0) ||             \
-         ((n0) >= 7 && MZD_B((n0) - 7) != 0))
 
 #define MZD_LOOP_POS                                                                               \
         __CPROVER_loop_invariant(n <= g_n0 && __CPROVER_same_object(c, buf) &&                     \
@@ -49,31 +38,6 @@ extern int w_found;
         __CPROVER_decreases(n)
 #define H_mem_zero_detect_base_1 VCANARY();
 
-#elif defined(MZD_COMPLETE)
-#define C_mem_zero_detect_base                                                                     \
-        __CPROVER_requires(n <= MZD_NMAX && __CPROVER_is_fresh(buf, n))                            \
-        __CPROVER_requires(g_n0 == n && w_found == 0)                                              \
-        __CPROVER_ensures(__CPROVER_return_value == 0 || __CPROVER_return_value == -1)             \
-        __CPROVER_ensures(__CPROVER_return_value != 0 ==>                                          \
-                          (w_found ? (w_k < g_n0 && MZD_B(w_k) != 0) : MZD_TAIL_NZ(g_n0)))         \
-        __CPROVER_assigns(w_k, w_found)
-#define L_mem_zero_detect_base_1                                                                   \
-        __CPROVER_assigns(n, c, w_k, w_found)                                                      \
-        MZD_LOOP_POS                                                                               \
-        __CPROVER_loop_invariant(w_found == 0)                                                     \
-        __CPROVER_decreases(n)
-/* ghost: if one of the eight bytes at c is non-zero, remember where.  After the loop w_found==0. */
-#define H_mem_zero_detect_base_1                                                                   \
-        {                                                                                          \
-                size_t o__ = g_n0 - n;                                                             \
-                int d__ = c[0] ? 0 : c[1] ? 1 : c[2] ? 2 : c[3] ? 3 : c[4] ? 4 : c[5] ? 5 : c[6] ? 6 : c[7] ? 7 : -1; \
-                if (d__ >= 0) {                                                                    \
-                        w_k = o__ + (size_t) d__;                                                  \
-                        w_found = 1;                                                               \
-                }                                                                                  \
-                VCANARY();                                                                         \
-        }
-
 #else /* soundness */
 #define C_mem_zero_detect_base                                                                     \
         __CPROVER_requires(n <= MZD_NMAX && __CPROVER_is_fresh(buf, n))                            \
@@ -88,7 +52,9 @@ extern int w_found;
         MZD_LOOP_POS                                                                               \
         __CPROVER_loop_invariant(g_p < g_n0 - n ==> MZD_B(g_p) == 0)                               \
         __CPROVER_decreases(n)
+#ifndef MZD_LEN0 /* the n==0 harness never enters the loop: no canary there */
 #define H_mem_zero_detect_base_1 VCANARY();
+#endif
 #endif
 
 #endif
